@@ -24,6 +24,9 @@ func TestC02(t *testing.T) {
 				r.Capped(fmt.Sprintf("budget reached after %d of %d topologies", ti, len(topos)))
 				break
 			}
+			for i := range tp.ASes {
+				tp.ASes[i].EPIC = true // AS entries carry the detachable EPIC extension
+			}
 			n, err := netsim.Build(tp)
 			if err != nil {
 				r.HarnessError("build %s: %v", tp.Name, err)
@@ -44,32 +47,44 @@ func TestC02(t *testing.T) {
 							r.Outcome("no-path")
 						}
 						for _, p := range ps {
-							pk := packetFor(n, src, dst, p, []byte("c02-payload"))
-							raw, _ := pk.Serialize()
-							o := n.Inject(raw, src, firstBR(n, src, p))
-							key := fmt.Sprintf("%s|%s>%s|%s|all=%v", tp.Name, tp.ASes[src].IA, tp.ASes[dst].IA, metaSeq(p), all)
-							r.Case(key, true)
-							paths++
-							hops += int64(len(o.Steps))
-							det := map[string]any{"case": key, "outcome": o.String(), "crossings": ifaceSeq(n, o.Crossings), "packet": fmt.Sprintf("%x", raw)}
-							if len(o.Steps) > 0 {
-								last := o.Steps[len(o.Steps)-1]
-								det["last_step"] = fmt.Sprintf("AS %s br %d in=%v disp=%d egress=%d scmp=(%d,%d,%d)", tp.ASes[last.AS].IA, last.BR, last.In, last.Disp, last.Egress, last.SPType, last.SPCode, last.SPPtr)
-							}
-							switch {
-							case o.Err != "":
-								r.Violation("walk-error", det)
-							case !o.Delivered || o.SCMPFrom >= 0:
-								r.Violation("not-accepted-by-every-router", det)
-							case o.DeliveredAS != dst || o.DeliveredTo != "10."+fmt.Sprint(dst+1)+".2.20:50000":
-								r.Violation("delivered-to-wrong-host", det)
-							case ifaceSeq(n, o.Crossings) != metaSeq(p):
-								r.Violation("interfaces-differ-from-metadata", det)
-							default:
-								r.Outcome(fmt.Sprintf("delivered/%d-crossings", len(o.Crossings)))
-							}
-							if paths%997 == 1 {
-								r.Sample(det)
+							for _, carriage := range []string{"scion", "epic"} {
+								pk := packetFor(n, src, dst, p, []byte("c02-payload"))
+								if carriage == "epic" {
+									// the combinator also hands out the authenticators of the EPIC variant of the path
+									ep := epicPacketFor(n, src, dst, p, []byte("c02-payload"))
+									if ep == nil || all {
+										continue
+									}
+									pk = *ep
+								}
+								raw, _ := pk.Serialize()
+								o := n.Inject(raw, src, firstBR(n, src, p))
+								key := fmt.Sprintf("%s|%s|%s>%s|%s|all=%v", tp.Name, carriage, tp.ASes[src].IA, tp.ASes[dst].IA, metaSeq(p), all)
+								r.Case(key, true)
+								paths++
+								hops += int64(len(o.Steps))
+								det := map[string]any{"case": key, "outcome": o.String(), "crossings": ifaceSeq(n, o.Crossings), "packet": fmt.Sprintf("%x", raw)}
+								if len(o.Steps) > 0 {
+									last := o.Steps[len(o.Steps)-1]
+									det["last_step"] = fmt.Sprintf("AS %s br %d in=%v disp=%d egress=%d scmp=(%d,%d,%d)", tp.ASes[last.AS].IA, last.BR, last.In, last.Disp, last.Egress, last.SPType, last.SPCode, last.SPPtr)
+								}
+								switch {
+								case o.Err != "":
+									r.Violation("walk-error", det)
+								case (!o.Delivered || o.SCMPFrom >= 0) && carriage == "epic":
+									r.Violation("epic-variant-not-accepted-by-every-router", det)
+								case !o.Delivered || o.SCMPFrom >= 0:
+									r.Violation("not-accepted-by-every-router", det)
+								case o.DeliveredAS != dst || o.DeliveredTo != "10."+fmt.Sprint(dst+1)+".2.20:50000":
+									r.Violation("delivered-to-wrong-host", det)
+								case ifaceSeq(n, o.Crossings) != metaSeq(p):
+									r.Violation("interfaces-differ-from-metadata", det)
+								default:
+									r.Outcome(fmt.Sprintf("delivered/%s/%d-crossings", carriage, len(o.Crossings)))
+								}
+								if paths%997 == 1 {
+									r.Sample(det)
+								}
 							}
 						}
 					}
